@@ -34,33 +34,33 @@ struct Profile {
 };
 
 //                      upd rea qry chg imm pApp pClr pRem suc fail ent ext sav lod rpl cpy rec log setCtx move
-//                      actions: none req cancel succ fail succId failId pApp pClr pRem req+ req& logger machine.req
+//                      actions: none req cancel succ fail succId failId pApp pClr pRem req+ req& logger machine.report machine.req
 const Profile kProfiles[] = {
 	{"general",        {20, 8,  4,  12, 10, 8,   2,   3,   5,  3,   3,  3,  4,  5,  4,  2,  2,  2, 2, 2},
-	                   {40, 18, 10, 6, 3, 4, 3, 8, 2, 3, 4, 4, 1, 4}, {8, 1, 1}, 14, 14, 45, 15, 50, 25},
+	                   {40, 18, 10, 6, 3, 4, 3, 8, 2, 3, 4, 4, 1, 2, 4}, {8, 1, 1}, 14, 14, 45, 15, 50, 25},
 	{"guards",         {14, 6,  1,  14, 26, 2,   0,   0,   2,  1,   3,  2,  0,  1,  2,  0,  1,  0, 1, 1},
-	                   {22, 34, 26, 1, 1, 1, 1, 2, 0, 0, 14, 8, 0, 6}, {9, 1, 0}, 12, 18, 40, 30, 50, 30},
+	                   {22, 34, 26, 1, 1, 1, 1, 2, 0, 0, 14, 8, 0, 1, 6}, {9, 1, 0}, 12, 18, 40, 30, 50, 30},
 	{"plans",          {30, 8,  1,  4,  3,  24,  2,   5,   8,  5,   2,  2,  1,  2,  1,  1,  1,  1, 1, 1},
-	                   {26, 8,  4,  16, 8, 8, 5, 18, 2, 5, 2, 2, 0, 2}, {9, 0, 1}, 18, 14, 40, 20, 30, 20},
+	                   {26, 8, 4, 16, 8, 8, 5, 18, 2, 5, 2, 2, 0, 6, 2}, {9, 0, 1}, 18, 14, 40, 20, 30, 20},
 	{"serial",         {10, 4,  1,  6,  16, 4,   1,   1,   1,  1,   6,  8,  16, 20, 2,  2,  2,  1, 1, 1},
-	                   {50, 18, 8,  3,  2, 2, 2, 6, 1, 2, 2, 2, 0, 6}, {1, 0, 0}, 14, 8, 30, 10, 30, 20},
+	                   {50, 18, 8, 3, 2, 2, 2, 6, 1, 2, 2, 2, 0, 1, 6}, {1, 0, 0}, 14, 8, 30, 10, 30, 20},
 	{"replica",        {18, 6,  1,  12, 18, 6,   1,   1,   4,  2,   5,  4,  0,  0,  0,  0,  0,  0, 0, 0},
-	                   {28, 30, 22, 4,  2, 2, 2, 6, 1, 1, 10, 8, 0, 5}, {0, 1, 0}, 12, 16, 40, 25, 50, 30},
+	                   {28, 30, 22, 4, 2, 2, 2, 6, 1, 1, 10, 8, 0, 1, 5}, {0, 1, 0}, 12, 16, 40, 25, 50, 30},
 	{"fork",           {20, 6,  2,  12, 10, 8,   1,   2,   4,  2,   3,  3,  3,  3,  3,  14, 0,  2, 1, 2},
-	                   {36, 20, 10, 6,  3, 4, 3, 8, 2, 3, 4, 3, 1, 3}, {0, 0, 1}, 12, 12, 45, 15, 40, 20},
+	                   {36, 20, 10, 6, 3, 4, 3, 8, 2, 3, 4, 3, 1, 2, 3}, {0, 0, 1}, 12, 12, 45, 15, 40, 20},
 	{"logging",        {20, 8,  3,  10, 10, 10,  1,   2,   6,  3,   3,  3,  1,  2,  2,  1,  2,  12, 1, 3},
-	                   {30, 18, 14, 8,  4, 5, 3, 10, 2, 3, 3, 2, 9, 3}, {1, 0, 0}, 14, 14, 40, 20, 30, 20},
+	                   {30, 18, 14, 8, 4, 5, 3, 10, 2, 3, 3, 2, 9, 3, 3}, {1, 0, 0}, 14, 14, 40, 20, 30, 20},
 	{"phases",         {34, 22, 12, 8,  4,  6,   1,   1,   3,  2,   2,  2,  0,  1,  1,  0,  1,  1, 2, 1},
-	                   {34, 24, 6,  8,  5, 5, 4, 8, 2, 2, 3, 3, 1, 4}, {1, 0, 0}, 12, 12, 40, 15, 30, 20},
+	                   {34, 24, 6, 8, 5, 5, 4, 8, 2, 2, 3, 3, 1, 2, 4}, {1, 0, 0}, 12, 12, 40, 15, 30, 20},
 	{"neutral",        {30, 14, 8,  20, 18, 0,   0,   0,   0,  0,   3,  3,  0,  0,  0,  0,  0,  0, 1, 1},
-	                   {40, 36, 24, 0,  0, 0, 0, 0, 0, 0, 10, 0, 0, 4}, {1, 0, 0}, 12, 14, 0, 20, 0, 20},
+	                   {40, 36, 24, 0, 0, 0, 0, 0, 0, 0, 10, 0, 0, 0, 4}, {1, 0, 0}, 12, 14, 0, 20, 0, 20},
 	// scenarios that use exactly one optional feature (C19: switching on any *other* feature must not change them)
 	{"plans_only",     {30, 8,  2,  8,  6,  24,  2,   5,   8,  5,   3,  4,  0,  0,  0,  0,  0,  0, 0, 0},
-	                   {26, 12, 6,  14, 8, 8, 5, 16, 2, 5, 3, 0, 0, 0}, {1, 0, 0}, 16, 14, 40, 20, 0, 20},
+	                   {26, 12, 6, 14, 8, 8, 5, 16, 2, 5, 3, 0, 0, 3, 0}, {1, 0, 0}, 16, 14, 40, 20, 0, 20},
 	{"serial_only",    {16, 6,  2,  10, 18, 0,   0,   0,   0,  0,   3,  4,  20, 24, 0,  0,  0,  0, 0, 0},
-	                   {50, 26, 14, 0,  0, 0, 0, 0, 0, 0, 5, 0, 0, 0}, {1, 0, 0}, 14, 10, 30, 15, 0, 20},
+	                   {50, 26, 14, 0, 0, 0, 0, 0, 0, 0, 5, 0, 0, 0, 0}, {1, 0, 0}, 14, 10, 30, 15, 0, 20},
 	{"history_only",   {22, 8,  2,  14, 20, 0,   0,   0,   0,  0,   3,  4,  0,  0,  14, 0,  0,  0, 0, 0},
-	                   {34, 32, 24, 0,  0, 0, 0, 0, 0, 0, 8, 8, 0, 0}, {3, 2, 0}, 14, 14, 40, 20, 50, 25},
+	                   {34, 32, 24, 0, 0, 0, 0, 0, 0, 0, 8, 8, 0, 0, 0}, {3, 2, 0}, 14, 14, 40, 20, 50, 25},
 };
 const int kProfileCount = sizeof(kProfiles) / sizeof(kProfiles[0]);
 
@@ -104,7 +104,7 @@ rc::Gen<Action> genAction(const Profile& p) {
 			a.y = uint8_t(genId());
 			if (a.kind == ACT_PLAN_REMOVE) a.x = uint8_t(*rng<int>(0, 256));
 			if (a.kind == ACT_REQUEST || a.kind == ACT_REQUEST_REL || a.kind == ACT_PLAN_APPEND) a.pay = *genPay(p.payPct);
-			if (a.kind == ACT_REQUEST_FWD) a.y = uint8_t(*rng<int>(0, 4));
+			if (a.kind == ACT_REQUEST_FWD) a.y = uint8_t(*rng<int>(0, 8));
 			if (a.kind == ACT_REQUEST_REL && *rng<int>(0, 100) < 35) { a.y = uint8_t(64 + *rng<int>(0, 40)); a.kind |= ACT_STICKY; }   // repeat the relative request y - 63 times, then go on
 			if (*rng<int>(0, 100) < p.chainPct) a.kind |= ACT_CHAIN;
 			if (*rng<int>(0, 100) < 6) a.kind |= ACT_STICKY;
